@@ -26,23 +26,30 @@ def main():
     pid = sys.argv[1]
     name = sys.argv[2] if len(sys.argv) > 2 and not sys.argv[2].startswith("--") else pid
     also = []
+    idx = ""
+    quick_only = "--quick-only" in sys.argv
     for a in sys.argv:
         if a.startswith("--also"):
             also = sys.argv[sys.argv.index(a) + 1].split(",")
+        if a == "--idx":
+            idx = sys.argv[sys.argv.index(a) + 1]
     src = f"/tmp/seed-{name}" if os.path.isdir(f"/tmp/seed-{name}") else f"/tmp/seed-{pid}"
+    sfx = f"_{idx}" if idx else ""
+    srcname = name
+    name = name + idx
     stored = os.path.join(HERE, "seeded", name)
     prev = {}
-    if not os.path.exists(os.path.join(src, "seed_patch.diff")) and os.path.isdir(stored):
+    if not os.path.exists(os.path.join(src, f"seed_patch{sfx}.diff")) and os.path.isdir(stored):
         # re-evaluation of a stored seed (the agent's worktree is gone): the demo still names it
         prev = json.load(open(os.path.join(stored, "meta.json")))
-        src = f"/tmp/seed-{name}"
+        src = prev.get("demo_src", f"/tmp/seed-{srcname}")
         patch = os.path.join(stored, "patch.diff")
         demo = os.path.join(stored, "demo.py")
         meta_txt = prev.get("agent_notes", "")
     else:
-        patch = os.path.join(src, "seed_patch.diff")
-        demo = os.path.join(src, "seed_demo.py")
-        meta_txt = open(os.path.join(src, "seed_meta.txt")).read() if os.path.exists(os.path.join(src, "seed_meta.txt")) else ""
+        patch = os.path.join(src, f"seed_patch{sfx}.diff")
+        demo = os.path.join(src, f"seed_demo{sfx}.py")
+        meta_txt = open(os.path.join(src, f"seed_meta{sfx}.txt")).read() if os.path.exists(os.path.join(src, f"seed_meta{sfx}.txt")) else ""
     d = tempfile.mkdtemp(prefix="seedeval-")
     rec = {"property": pid, "name": name, "ran": [], "prev": prev}
     try:
@@ -71,7 +78,7 @@ def main():
         env = dict(os.environ, VERIF_REPO=wt, VERIF_EVIDENCE_DIR=os.path.join(d, "evidence"))
         detected = {}
         for chk in [pid] + also:
-            for tier in ("quick", "thorough"):
+            for tier in (("quick",) if quick_only else ("quick", "thorough")):
                 r = run(f"cd {HERE} && /venv/bin/python check {chk} --tier {tier}", env=env)
                 mechs = sorted({ln.split("mechanism:")[1].strip() for ln in r.stdout.splitlines() if "mechanism:" in ln})
                 rec["ran"].append({"check": chk, "tier": tier, "exit": r.returncode, "mechanisms": mechs[:8],
@@ -101,7 +108,7 @@ def finish(rec, files):
                 "agent_notes": meta_txt, "needs_to_manifest": "see agent_notes (WHAT IS NEEDED TO MANIFEST)",
                 "confirmed": {"patch_applies_to_repo_head": rec["patch_applies"], "pinned_suite_with_patch": rec["pinned_suite"],
                               "demo_exit_without_patch": rec["demo_without_patch_exit"], "demo_exit_with_patch": rec["demo_with_patch_exit"]},
-                "checks_run": rec["ran"], "detected_by": rec.get("detected_by", {}),
+                "checks_run": rec["ran"], "detected_by": rec.get("detected_by", {}), "demo_src": src,
                 "how_to_rerun": f"git -C /repo worktree add --detach /tmp/x HEAD && git -C /tmp/x apply {os.path.join('seeded', rec['name'], 'patch.diff')} ; VERIF_REPO=/tmp/x VERIF_EVIDENCE_DIR=/tmp/x-ev /venv/bin/python check {rec['property']} --tier quick ; git -C /repo worktree remove --force /tmp/x"}
         prev = rec.get("prev") or {}
         if prev:
